@@ -15,6 +15,7 @@ CONSTANTS
   MaxSocks = 4
   MaxOps = 3
   NoWrap = TRUE
+  StallHosts = {}
   ProbeActs = FALSE
   FillFrom = 0
   SwAddrs = {"lo", "a1", "a2", "b1", "x"}
